@@ -64,3 +64,7 @@ fn("hypercorn.typing:TaskGroup.spawn_app", params={"app": "opaque", "config": "o
    modifies=[], returns="opaque", effect="atomic", assume_only=True,
    trusted_reason="interface; refined by both TaskGroup.spawn_app (C16): creates the queue and schedules _handle without suspending",
    ghost_post=["caller_set('g_app_started', True)", "caller_count('g_spawned')"])
+
+# response_headers is verified as a unit of its own (C02.cfg / C19); callers use the contract
+fn("hypercorn.config:Config.response_headers", params={"protocol": "str"}, returns="hdrs", modifies=[], effect="atomic",
+   props=("C02", "C19"))
